@@ -68,6 +68,7 @@ type env struct {
 	issuedGen map[string]int
 	gen      map[int]int // keystore id -> how many times it was created / imported in this wallet lineage
 	unlocked bool
+	acctVariant map[int]int
 	c        *ctl // fault control (C12)
 	faulty   bool
 	quiet    bool
@@ -440,7 +441,8 @@ func (e *env) tamper(f fileRec, tok string) []byte {
 		n, _ := strconv.Atoi(parts[1])
 		hd["InternalChildNum"] = n
 	case "account":
-		hd["Account"] = 1
+		cur, _ := hd["Account"].(float64)
+		hd["Account"] = int(cur) + 1
 	}
 	out, _ := json.Marshal(ks)
 	return out
@@ -458,13 +460,21 @@ func (e *env) opImport(fno, old, new_ int, tam string) (string, string) {
 		eff = new_
 	}
 	had := len(e.ksIDs())
+	if strings.HasPrefix(tam, "account:") {
+		// a different account of the same seed is a different identity: one token per source keystore
+		v, ok := e.acctVariant[f.id]
+		if !ok {
+			e.freshID++
+			v = e.freshID
+			e.acctVariant[f.id] = v
+		}
+		tam = "account:" + strconv.Itoa(v)
+	}
 	name, remark, err := e.kmc.ImportKeystore(data, []byte(e.passes[old]), newPass)
 	if strings.HasPrefix(tam, "account:") && err == nil {
-		// a different account of the same seed: a new identity
 		if _, ok := e.idOf[name]; !ok {
-			e.bind(name, e.freshID)
+			e.bind(name, e.acctVariant[f.id])
 		}
-		tam = "account:" + strconv.Itoa(e.id(name))
 	}
 	line := fmt.Sprintf("import %d %s %s %s", fno, e.ptok(old), newTok, tam)
 	if err != nil {
@@ -667,11 +677,29 @@ func (e *env) opSign(t triple, dlen int) (string, string) {
 	e.h.Rng.Read(digest)
 	sig, err := e.kmc.SignHash(pk, digest)
 	if err != nil {
+		// C05: an issued key of a managed keystore must be able to sign whenever the wallet is unlocked
+		e.h.Res.OracleEvals++
+		if dlen == 32 && e.unlocked && !e.kmc.IsLocked() {
+			_, all := e.kmc.VerifDump()
+			for _, k := range all {
+				if e.id(k.Name) != t.id {
+					continue
+				}
+				lim := k.NextExternal
+				if t.branch == 1 {
+					lim = k.NextInternal
+				}
+				if t.idx < lim {
+					e.fail("C05", "issued-key-cannot-sign", "wallet unlocked, keystore %d has issued %d keys on branch %d, but SignHash for index %d fails: %v", t.id, lim, t.branch, t.idx, err)
+				}
+			}
+		}
 		return line, "err " + errName(err)
 	}
 	e.h.Res.OracleEvals++
-	if !e.unlocked {
-		e.fail("C03", "signed-while-locked", "SignHash succeeded while the wallet is locked")
+	if !e.unlocked || e.kmc.IsLocked() {
+		e.fail("C03", "signed-while-locked", "SignHash succeeded while the wallet is locked (IsLocked=%v)", e.kmc.IsLocked())
+		e.fail("C05", "signed-while-locked", "SignHash succeeded while the wallet reports locked (IsLocked=%v)", e.kmc.IsLocked())
 	}
 	if !sig.Verify(digest, pk) {
 		e.fail("C05", "signature-does-not-verify", "SignHash for keystore %d %d/%d returned a signature that does not verify under that public key", t.id, t.branch, t.idx)
@@ -807,6 +835,15 @@ func (e *env) step() {
 		e.do(e.opGenPub())
 	case x < 38:
 		if e.unlocked {
+			if r.Intn(3) == 0 && e.priv >= 0 {
+				// a second Unlock with a WRONG passphrase (with the right one the outcome depends on whether an
+				// export/delete/create zeroed the shared master key since: not modelled, see DESIGN.md 4.A)
+				p := r.Intn(len(e.passes))
+				if p != e.priv {
+					e.do(e.opUnlock(p))
+					break
+				}
+			}
 			e.do("lock", e.lock())
 		} else {
 			e.do(e.opUnlock(e.somePass()))
@@ -955,6 +992,47 @@ func (e *env) audit() {
 	}
 }
 
+// scenarioBranches: keystores with keys on one branch only / unequal counts, issued locked and unlocked,
+// exported, deleted, imported, unlocked — the closing audit then signs with every key.
+func (e *env) scenarioBranches() {
+	r := e.h.Rng
+	p := e.priv
+	if p < 0 {
+		p = 1
+	}
+	if e.unlocked && r.Intn(2) == 0 {
+		e.do("lock", e.lock())
+	}
+	e.freshID++
+	id := e.freshID
+	_, out := e.opNew(p, "s"+strconv.Itoa(id), "branches")
+	e.do(fmt.Sprintf("new %s s%d %s", e.ptok(p), id, rtok("branches")), out)
+	if !strings.HasPrefix(out, "created") {
+		return
+	}
+	switch r.Intn(3) {
+	case 0: // internal only
+		e.do(e.opNext(id, true, uint32(1+r.Intn(3))))
+	case 1: // external only
+		e.do(e.opNext(id, false, uint32(1+r.Intn(3))))
+	default: // unequal
+		e.do(e.opNext(id, false, uint32(2+r.Intn(2))))
+		e.do(e.opNext(id, true, 1))
+	}
+	e.h.Emit("dump", e.dump())
+	l, o := e.opExport(id, p)
+	e.do(l, o)
+	if !strings.HasPrefix(o, "file") {
+		return
+	}
+	fno := len(e.files) - 1
+	e.do(e.opDelete(id, p))
+	e.do(e.opImport(fno, p, -1, "none"))
+	if r.Intn(2) == 0 {
+		e.restart()
+	}
+}
+
 // scenarioC01: export every keystore, delete it, and import the file back under every kind of alteration
 // (into the same wallet); finally import all files into a fresh wallet ("any other wallet").
 func (e *env) scenarioC01() {
@@ -1043,6 +1121,7 @@ func main() {
 		e.keyAddr, e.keyPub = map[triple]string{}, map[triple][]byte{}
 		e.issued, e.issuedAt = map[string]bool{}, map[string]triple{}
 		e.issuedGen, e.gen = map[string]int{}, map[int]int{}
+		e.acctVariant = map[int]int{}
 		e.files = nil
 		e.freshID = 100 + 50*s
 		pub := []int{0, 0, 3}[h.Rng.Intn(3)]
@@ -1051,6 +1130,9 @@ func main() {
 		n := 6 + h.Rng.Intn(h.Len)
 		for i := 0; i < n; i++ {
 			e.step()
+		}
+		if e.focus == "C01" || e.focus == "C05" || h.Rng.Intn(6) == 0 {
+			e.scenarioBranches()
 		}
 		if e.focus == "C01" || h.Rng.Intn(6) == 0 {
 			e.scenarioC01()
